@@ -10,7 +10,25 @@ import (
 	"bufio"
 	"io"
 	"os"
+
+	"github.com/mimecast/dtail/internal/verifrt"
 )
+
+// VerifProvide makes content available as a file and returns its path: under
+// the engine an in-memory source behind makeReader, natively a real temp file.
+func VerifProvide(content []byte) string {
+	if verifrt.Symbolic() {
+		VerifDefault = &VerifSource{Content: content}
+		return "f"
+	}
+	f, err := os.CreateTemp("", "verif-c-")
+	if err != nil {
+		panic(err)
+	}
+	f.Write(content)
+	f.Close()
+	return f.Name()
+}
 
 // VerifSource scripts what the file descriptor returns.
 type VerifSource struct {
